@@ -1,6 +1,7 @@
 import OjgVerif.Props.C01
 import OjgVerif.Props.C03
 import OjgVerif.Json.RefineSpec
+import OjgVerif.Json.Erase
 /-! # C01 — the language theorem
 
 `Props/C01.lean` shows that the regenerated tables are the reference transition function and that the
@@ -119,6 +120,41 @@ theorem oj_reader_accepts_spec (chunks : List Bytes) :
 theorem gen_reader_accepts_spec (chunks : List Bytes) :
     (toOpt (run genTables cfgR chunks)).isSome = Spec.accepts chunks.flatten := by
   rw [gen_is_reference, ← oj_is_reference]; exact oj_reader_accepts_spec chunks
+
+theorem isSome_outcome (r : Except Err (List JV)) : (toOpt r).isSome = (toOpt (outcome r)).isSome := by
+  cases r <;> rfl
+
+/-- configuration of oj.Parser / gen.Parser on a `[]byte`: the pinned integer fast loop is on -/
+def cfgP : Cfg := { fastInt := true }
+/-- the same reading an io.Reader -/
+def cfgPR : Cfg := { fastInt := true, reader := true }
+
+/-- **C01 for the parsers** (`oj.Parse`, `gen.Parser.Parse`): the pinned integer loop changes how
+some integers are represented (known finding C02-int19), never which texts are accepted. -/
+theorem oj_parser_accepts_spec (bs : Bytes) : (toOpt (run ojTables cfgP [bs])).isSome = Spec.accepts bs := by
+  rw [oj_is_reference, isSome_outcome, run_outcome_fastInt cfgP cfg1 rfl rfl, ← isSome_outcome]
+  exact run_accepts bs
+
+theorem gen_parser_accepts_spec (bs : Bytes) : (toOpt (run genTables cfgP [bs])).isSome = Spec.accepts bs := by
+  rw [gen_is_reference, ← oj_is_reference]; exact oj_parser_accepts_spec bs
+
+/-- the parsers reading an io.Reader, any chunking -/
+theorem oj_parser_reader_accepts_spec (chunks : List Bytes) :
+    (toOpt (run ojTables cfgPR chunks)).isSome = Spec.accepts chunks.flatten := by
+  rw [oj_is_reference, isSome_outcome, run_outcome_fastInt cfgPR cfgR rfl rfl, ← isSome_outcome, ← oj_is_reference]
+  exact oj_reader_accepts_spec chunks
+
+theorem gen_parser_reader_accepts_spec (chunks : List Bytes) :
+    (toOpt (run genTables cfgPR chunks)).isSome = Spec.accepts chunks.flatten := by
+  rw [gen_is_reference, ← oj_is_reference]; exact oj_parser_reader_accepts_spec chunks
+
+/-- front-ends with and without the integer loop report the same outcome but for the values:
+same acceptance, same number of documents (also in multi-document mode), same error kind, line and
+column — for every configuration pair that differs only in the loop, every input and chunking -/
+theorem outcome_independent_of_fastInt (cfg : Cfg) (chunks : List Bytes) :
+    outcome (run ojTables cfg chunks) = outcome (run ojTables { cfg with fastInt := !cfg.fastInt } chunks) := by
+  rw [oj_is_reference, oj_is_reference]
+  exact run_outcome_fastInt cfg { cfg with fastInt := !cfg.fastInt } rfl rfl chunks
 
 /-- the hypotheses are not vacuous: a concrete text with every construct is accepted, a near miss is not -/
 example : Spec.accepts [123, 34, 97, 34, 58, 91, 49, 44, 45, 50, 46, 53, 101, 51, 44, 116, 114, 117, 101, 44, 110, 117, 108, 108, 44, 34, 120, 92, 117, 48, 48, 101, 57, 34, 93, 125, 32] = true := by decide +kernel   -- {"a":[1,-2.5e3,true,null,"x\u00e9"]} and a blank
